@@ -1,6 +1,6 @@
 SPECIFICATION Spec
 CONSTANTS
   Priors = {0, 1, 2, 3, 4, 5}
-  RichB = TRUE
+  RichB = "full"
 INVARIANTS InsidePath Frame
 CHECK_DEADLOCK FALSE
